@@ -568,12 +568,13 @@ theorem input_good {rid : String} {old : Option Chunk} {s : Int} {X : Chunk} {S2
       by simp only; omega, ?_, fun _ => rfl⟩
     intro r hr; have := (xin r hr).1; omega
 
-/-- The step on good chunks. `S2 ++ P` are the rows of the cached input: the results for `S2` have
+/-- The step on good chunks, with the intermediate chunks exposed (used by the multi-output proof). The step on good chunks. `S2 ++ P` are the rows of the cached input: the results for `S2` have
 been sent (they end by `s`), those for `P` are pending (they start from `s` on).  The call
 succeeds; it sends the results for `Qo` and keeps those for `Qc`, where `P ++ X.rows = Qo ++ Qc`;
 every row of `Qo` ends at least `2·wr + 1` before the end of the input; the new input cache
 drops `D2`, rows ending at least `2·wl + 1` before the new `sent_until`. -/
-theorem step1_good {g : Row → List Row → Row} (hg : Keeps g) {wl wr : Int} (hwl : 0 ≤ wl) (hwr : 0 ≤ wr)
+theorem step1_good_ex {g : Row → List Row → Row} (hg : Keeps g) {f : List Row → List Row} {wl wr : Int}
+    (hf : ∀ rows, PositiveRows rows → f rows = perRow wl wr g rows) (hwl : 0 ≤ wl) (hwr : 0 ≤ wr)
     {rid : String} {old : Option Chunk} {s : Int} {X : Chunk} {S2 P : List Row}
     (hX : X.good = true) (hXr : X.runId = some rid)
     (hold : (old = none ∧ S2 = [] ∧ P = [] ∧ s ≤ X.start) ∨
@@ -581,7 +582,7 @@ theorem step1_good {g : Row → List Row → Row} (hg : Keeps g) {wl wr : Int} (
         o.rows = S2 ++ P ∧ o.start ≤ s ∧ s ≤ o.stop))
     (hS2 : ∀ r ∈ S2, r.endt ≤ s) (hP : ∀ r ∈ P, s ≤ r.time) :
     ∃ out cr ci Qo Qc D2 S2',
-      step1 (perRow wl wr g) (wl, wr) rid old s X = .ok (out, cr, ci) ∧
+      step1 f (wl, wr) rid old s X = .ok (out, cr, ci) ∧
       P ++ X.rows = Qo ++ Qc ∧
       out.rows = ctxMap wl wr g (S2 ++ P ++ X.rows) Qo ∧
       cr.rows = ctxMap wl wr g (S2 ++ P ++ X.rows) Qc ∧
@@ -590,7 +591,19 @@ theorem step1_good {g : Row → List Row → Row} (hg : Keeps g) {wl wr : Int} (
       ci.start ≤ cr.start ∧ cr.start ≤ ci.stop ∧ s ≤ cr.start ∧
       S2 ++ Qo = D2 ++ S2' ∧ ci.rows = S2' ++ Qc ∧
       (∀ n ∈ D2, n.endt ≤ cr.start - 2 * wl - 1) ∧ (∀ r ∈ S2', r.endt ≤ cr.start) ∧
-      (∀ r ∈ Qc, cr.start ≤ r.time) := by
+      (∀ r ∈ Qc, cr.start ≤ r.time) ∧
+      -- the chunks the call went through
+      ∃ I r0 R' i0, (match old with
+         | none => Except.ok X
+         | some o => concatenate [o, X] false) = .ok I ∧
+        I.good = true ∧ I.rows = S2 ++ P ++ X.rows ∧ I.runId = some rid ∧ I.subruns = none ∧
+        I.superrun = [⟨rid, I.start, I.stop⟩] ∧
+        (Chunk.good ⟨outType, outKind, some rid, I.start, I.stop, perRow wl wr g I.rows, none,
+          [⟨rid, I.start, I.stop⟩], 1000⟩) = true ∧
+        (Chunk.split ⟨outType, outKind, some rid, I.start, I.stop, perRow wl wr g I.rows, none,
+          [⟨rid, I.start, I.stop⟩], 1000⟩ s false) = .ok (r0, R') ∧ R'.good = true ∧
+        R'.split (I.stop - 2 * wr - 1) true = .ok (out, cr) ∧
+        I.split (cr.start - 2 * wl - 1) true = .ok (i0, ci) := by
   obtain ⟨I, a, hI, hIg, hIrows, hIstop, hIrid, hIdt, ha, hsa, hIa, haI, hXa, hPa⟩ := input_good hX hXr hold
   have hIg' := hIg
   simp only [Chunk.good, Bool.and_eq_true] at hIg'
@@ -701,7 +714,8 @@ theorem step1_good {g : Row → List Row → Row} (hg : Keeps g) {wl wr : Int} (
     (by rw [hsplit, hrows3]; exact hIpos) hsplit hD2 hQc_start (by omega)
   refine ⟨out, cr, ci, Qo, Qc, i0.rows, S2', ?_, hQ, ?_, ?_, hQo_final, ?_, hig, by rw [hidt, hIdt], by rw [hirid, hIrid],
     by rw [hie, hIstop], by rw [his, hcs]; omega, by rw [hcs, hie]; exact ht2b, by rw [hcs]; omega, hK1, hK2,
-    by rw [hcs]; exact hD2, ?_, by rw [hcs]; exact hQc_start⟩
+    by rw [hcs]; exact hD2, ?_, by rw [hcs]; exact hQc_start,
+    I, r0, R', i0, hI, hIg, hIrows, hIrid, hIsub, hIsup, hRg, hs1, hR'g, hs2, hs3⟩
   · -- the computation itself
     unfold step1
     simp only [hI]
@@ -709,7 +723,7 @@ theorem step1_good {g : Row → List Row → Row} (hg : Keeps g) {wl wr : Int} (
       simp only [Bool.or_eq_true, decide_eq_true_eq, not_or, Int.not_lt]; exact ⟨hwl, hwr⟩
     rw [if_neg hw]
     have hlen : ¬ (I.superrun.length > 1) := by rw [hIsup]; simp
-    rw [if_neg hlen, hIsub, hIsup, hR]
+    rw [if_neg hlen, hIsub, hIsup, hf I.rows hIpos, hR]
     simp only [hs1, hs2, hs3]
   · rw [hQo, hIrows]
   · rw [hQc, hIrows]
@@ -722,6 +736,34 @@ theorem step1_good {g : Row → List Row → Row} (hg : Keeps g) {wl wr : Int} (
     rcases List.mem_append.1 hr' with h | h
     · have := hS2 r h; omega
     · exact hQo_end r h
+
+/-- The step on good chunks. `S2 ++ P` are the rows of the cached input: the results for `S2` have
+been sent (they end by `s`), those for `P` are pending (they start from `s` on).  The call
+succeeds; it sends the results for `Qo` and keeps those for `Qc`, where `P ++ X.rows = Qo ++ Qc`;
+every row of `Qo` ends at least `2·wr + 1` before the end of the input; the new input cache
+drops `D2`, rows ending at least `2·wl + 1` before the new `sent_until`. -/
+theorem step1_good {g : Row → List Row → Row} (hg : Keeps g) {f : List Row → List Row} {wl wr : Int}
+    (hf : ∀ rows, PositiveRows rows → f rows = perRow wl wr g rows) (hwl : 0 ≤ wl) (hwr : 0 ≤ wr)
+    {rid : String} {old : Option Chunk} {s : Int} {X : Chunk} {S2 P : List Row}
+    (hX : X.good = true) (hXr : X.runId = some rid)
+    (hold : (old = none ∧ S2 = [] ∧ P = [] ∧ s ≤ X.start) ∨
+      (∃ o, old = some o ∧ o.good = true ∧ o.dataType = X.dataType ∧ o.runId = some rid ∧ o.stop = X.start ∧
+        o.rows = S2 ++ P ∧ o.start ≤ s ∧ s ≤ o.stop))
+    (hS2 : ∀ r ∈ S2, r.endt ≤ s) (hP : ∀ r ∈ P, s ≤ r.time) :
+    ∃ out cr ci Qo Qc D2 S2',
+      step1 f (wl, wr) rid old s X = .ok (out, cr, ci) ∧
+      P ++ X.rows = Qo ++ Qc ∧
+      out.rows = ctxMap wl wr g (S2 ++ P ++ X.rows) Qo ∧
+      cr.rows = ctxMap wl wr g (S2 ++ P ++ X.rows) Qc ∧
+      (∀ r ∈ Qo, r.endt ≤ X.stop - 2 * wr - 1) ∧ (∀ r ∈ Qo ++ Qc, s ≤ r.time) ∧
+      ci.good = true ∧ ci.dataType = X.dataType ∧ ci.runId = some rid ∧ ci.stop = X.stop ∧
+      ci.start ≤ cr.start ∧ cr.start ≤ ci.stop ∧ s ≤ cr.start ∧
+      S2 ++ Qo = D2 ++ S2' ∧ ci.rows = S2' ++ Qc ∧
+      (∀ n ∈ D2, n.endt ≤ cr.start - 2 * wl - 1) ∧ (∀ r ∈ S2', r.endt ≤ cr.start) ∧
+      (∀ r ∈ Qc, cr.start ≤ r.time) := by
+  obtain ⟨out, cr, ci, Qo, Qc, D2, S2', h1, h2, h3, h4, h5, h6, h7, h8, h9, h10, h11, h12, h13, h14, h15, h16, h17,
+    h18, -⟩ := step1_good_ex hg hf hwl hwr hX hXr hold hS2 hP
+  exact ⟨out, cr, ci, Qo, Qc, D2, S2', h1, h2, h3, h4, h5, h6, h7, h8, h9, h10, h11, h12, h13, h14, h15, h16, h17, h18⟩
 
 /-! ## §6 the main induction -/
 
@@ -750,7 +792,8 @@ theorem chain_rows_later {e : Int} {rest : List Chunk} (hc : Chain e rest) (hg :
 
 theorem flatMap_rows_map_wrap (cs : List Chunk) : cs.flatMap (·.rows) = allRows cs := rfl
 
-theorem iterLoop_whole {g : Row → List Row → Row} (hg : Keeps g) {wl wr : Int} (hwl : 0 ≤ wl) (hwr : 0 ≤ wr)
+theorem iterLoop_whole {g : Row → List Row → Row} (hg : Keeps g) {f : List Row → List Row} {wl wr : Int}
+    (hf : ∀ rows, PositiveRows rows → f rows = perRow wl wr g rows) (hwl : 0 ≤ wl) (hwr : 0 ≤ wr)
     (rid kind dt : String) (T : List Row) :
     ∀ (rest : List Chunk) (old : Option Chunk) (crd : Dict Chunk) (s : Int) (buf : Chunk) (Dtot S2 P : List Row),
     buf.good = true → buf.runId = some rid → buf.dataType = dt →
@@ -763,7 +806,7 @@ theorem iterLoop_whole {g : Row → List Row → Row} (hg : Keeps g) {wl wr : In
     T = Dtot ++ (S2 ++ P ++ buf.rows) ++ allRows rest →
     (∀ n ∈ Dtot, n.endt ≤ s - 2 * wl - 1) →
     ∃ outs st' cs cr,
-      iterLoop (spec1 (perRow wl wr g) (wl, wr) rid) kind ⟨optDict kind old, crd, s⟩ buf rest = .ok (outs, st') ∧
+      iterLoop (spec1 f (wl, wr) rid) kind ⟨optDict kind old, crd, s⟩ buf rest = .ok (outs, st') ∧
       outs = cs.map (fun c => [(outType, c)]) ∧ st'.cachedResults = [(outType, cr)] ∧
       allRows cs ++ cr.rows = ctxMap wl wr g T (P ++ buf.rows ++ allRows rest) := by
   intro rest
@@ -781,7 +824,7 @@ theorem iterLoop_whole {g : Row → List Row → Row} (hg : Keeps g) {wl wr : In
         o.rows = S2 ++ P ∧ o.start ≤ s ∧ s ≤ o.stop) := by
       rw [i1, i4, hbd]; exact hold
     obtain ⟨out, cr, ci, Qo, Qc, D2, S2', hstep, hQ, hout, hcr, hQof, hQs, -⟩ :=
-      step1_good hg hwl hwr hig (by rw [i5, hbr]) hold' hS2 hP
+      step1_good hg hf hwl hwr hig (by rw [i5, hbr]) hold' hS2 hP
     rw [i3] at hQ hout hcr
     refine ⟨[[(outType, out)]], ⟨[(kind, ci)], [(outType, cr)], cr.start⟩, [out], cr, ?_, rfl, rfl, ?_⟩
     · unfold iterLoop
@@ -812,7 +855,7 @@ theorem iterLoop_whole {g : Row → List Row → Row} (hg : Keeps g) {wl wr : In
         o.rows = S2 ++ P ∧ o.start ≤ s ∧ s ≤ o.stop) := by
       rw [i1, i4, hbd]; exact hold
     obtain ⟨out, cr, ci, Qo, Qc, D2, S2', hstep, hQ, hout, hcr, hQof, hQs, hcig, hcid, hcir, hcie, hci1, hci2, hss,
-      hK1, hK2, hD2, hS2', hQc⟩ := step1_good hg hwl hwr hig (by rw [i5, hbr]) hold' hS2 hP
+      hK1, hK2, hD2, hS2', hQc⟩ := step1_good hg hf hwl hwr hig (by rw [i5, hbr]) hold' hS2 hP
     rw [i3] at hQ hout hcr
     obtain ⟨hcg, hcr', hcd⟩ := hrest c (by simp)
     obtain ⟨hch1, hch2⟩ := hchain
@@ -841,7 +884,7 @@ theorem iterLoop_whole {g : Row → List Row → Row} (hg : Keeps g) {wl wr : In
     refine ⟨[(outType, out)] :: outs2, st2, out :: cs2, crf, ?_, by rw [hcs2]; rfl, hcrf, ?_⟩
     · unfold iterLoop
       simp only [hsp, doCompute_spec1, hstep, hcat]
-      have hrec' : iterLoop (spec1 (perRow wl wr g) (wl, wr) rid) kind
+      have hrec' : iterLoop (spec1 f (wl, wr) rid) kind
           ⟨[(kind, ci)], [(outType, cr)], cr.start⟩ _ rest = .ok (outs2, st2) := hrec
       rw [hrec']
     · rw [allRows_cons, List.append_assoc, hrows, b3, allRows_cons]
@@ -945,23 +988,31 @@ theorem stream_parts {cs : List Chunk} (hs : Stream cs) :
 /-- The whole-run theorem for a per-row computation given by an interval-preserving kernel: on a
 law-abiding chunking of a run of disjoint rows the plugin does not fail, and everything it yields,
 concatenated, is the computation over the whole run. -/
-theorem runOverlap_whole {g : Row → List Row → Row} (hg : Keeps g) {wl wr : Int} (hwl : 0 ≤ wl) (hwr : 0 ≤ wr)
+theorem runOverlap_whole {g : Row → List Row → Row} (hg : Keeps g) {f : List Row → List Row} {wl wr : Int}
+    (hf : ∀ rows, PositiveRows rows → f rows = perRow wl wr g rows) (hwl : 0 ≤ wl) (hwr : 0 ≤ wr)
     {cs : List Chunk} (hs : Stream cs) :
-    ∃ outs, runOverlap (perRow wl wr g) (wl, wr) cs = .ok outs ∧ allRows outs = perRow wl wr g (allRows cs) := by
+    ∃ outs, runOverlap f (wl, wr) cs = .ok outs ∧ allRows outs = f (allRows cs) := by
   obtain ⟨c, rest, rid, rfl, hrid, hall, hchain, h0⟩ := stream_parts hs
   obtain ⟨hcg, -, -⟩ := hall c (by simp)
   obtain ⟨outs, st', ocs, cr, hloop, houts, hcr, hrows⟩ :=
-    iterLoop_whole hg hwl hwr rid c.kind c.dataType (allRows (c :: rest)) rest none [] 0 c [] [] []
+    iterLoop_whole hg hf hwl hwr rid c.kind c.dataType (allRows (c :: rest)) rest none [] 0 c [] [] []
       hcg hrid rfl (fun c' hc' => hall c' (by simp [hc'])) hchain (Or.inl ⟨rfl, rfl, rfl, h0⟩)
       (by simp) (by simp) (by simp [allRows_cons]) (by simp)
   refine ⟨ocs ++ [cr], ?_, ?_⟩
   · unfold runOverlap
     simp only [hrid, runDicts]
-    have hloop' : iterLoop (spec1 (perRow wl wr g) (wl, wr) rid) c.kind State.init c rest = .ok (outs, st') := hloop
+    have hloop' : iterLoop (spec1 f (wl, wr) rid) c.kind State.init c rest = .ok (outs, st') := hloop
     rw [hloop']
     simp only [houts, hcr, mapE_single_append]
   · have : allRows (ocs ++ [cr]) = allRows ocs ++ cr.rows := by simp [allRows]
-    rw [this, hrows, perRow_eq_ctxMap, allRows_cons]
+    have hposT : PositiveRows (allRows (c :: rest)) := by
+      intro r hr
+      simp only [allRows, List.mem_flatMap] at hr
+      obtain ⟨c', hc', hr'⟩ := hr
+      have hg' := (hall c' hc').1
+      simp only [Chunk.good, Bool.and_eq_true] at hg'
+      exact ((Chunk.wf_iff c').1 hg'.1).2.2.2.1 r hr'
+    rw [this, hrows, hf _ hposT, perRow_eq_ctxMap, allRows_cons]
     simp
 
 /-! ## §7 multi-output plugins: the chunks of one result are aligned -/
